@@ -24,9 +24,15 @@ def c_overloads():
     return set((e['fn'], e['sig']) for e in api()['c'])
 
 
+FULL_MANTISSA = [False]
+
+
 def exact_double(rng, lo, hi):
-    """a double with a short mantissa (exactly representable in both precisions, prints short)"""
+    """a double (exactly representable in both precisions); by default with a short mantissa (prints short),
+    with FULL_MANTISSA[0] a generic 53-bit one (sums and products of such inputs are inexact in double)"""
     x = rng.uniform(lo, hi)
+    if FULL_MANTISSA[0]:
+        return x
     return round(x * 1024) / 1024.0
 
 
@@ -173,9 +179,13 @@ def gen_purity(rng, sol, apis=('cxx',), variant='exc', nev=10, noise=25, reverse
         V2 = {k: [exact_double(rng, 0.5, 3.0) for _ in range(rng.randint(2, 6))] for k in e['vecs']}
         cb = [rng.choice(['const', 'arr', 'poly']), hexf(exact_double(rng, 0.5, 2)), hexf(exact_double(rng, 0.1, 0.9)), hexf(exact_double(rng, 0.1, 2))]
         evs = []
+        cb2 = [rng.choice(['const', 'arr', 'poly']), hexf(exact_double(rng, 2.5, 4)), hexf(exact_double(rng, 0.1, 0.9)), hexf(exact_double(rng, 0.1, 2))]
         for fn, sig in caps + [rng.choice(caps) for _ in range(nev)]:
             p = rng.choice(['d', 'd', 'ld'])
-            evs.append((p, fn, sig, admissible_point(rng, sol, sig), rng.randint(-1, e['dim'] + 2), cb))
+            pt = admissible_point(rng, sol, sig)
+            evs.append((p, fn, sig, pt, rng.randint(-1, e['dim'] + 2), cb))
+            if 'F' in sig:       # the same point with another caller-supplied function
+                evs.append((p, fn, sig, pt, 1, cb2))
         plan = dict(other=other, P=P, P2=P2, V=V, V2=V2, cb=cb, evs=evs, seed=rng.randint(0, 10**9))
     other, P, P2, V, V2, cb, evs = plan['other'], plan['P'], plan['P2'], plan['V'], plan['V2'], plan['cb'], plan['evs']
     lrng = random.Random(plan['seed'] + (1 if reverse else 0))
@@ -485,7 +495,26 @@ def value_point(rng, sol, sig):
     return [hexf(v) for v in pt]
 
 
-def gen_values(rng, sol, precs=('d', 'ld'), nassign=2, npts=3, evaluators=None, setter=None, variant='exc', paired=True):
+TRANSPORT = ('mu', 'k', 'nu', 'mu_r', 'kappa_r', 'lambda_r')
+
+
+def scale_mix(rng, sol, vals, i=0):
+    """C09: make different groups of terms dominate: over consecutive assignments the transport coefficients and
+    the velocity amplitudes are rescaled by decades, systematically (admissibility -- positive density, pressure,
+    temperature -- is not affected by either)"""
+    ft = [1.0, 100.0, 0.01, 10.0][i % 4] * (2.0 ** rng.uniform(-1, 1))
+    fv = [1.0, 1.0, 10.0, 0.1][i % 4]
+    for k in vals:
+        if k in TRANSPORT:
+            vals[k] *= ft
+    if fv != 1.0 and sol not in ('fans_sa_steady_wall_bounded', 'rans_sa', 'sod_1d', 'cp_normal', 'euler_chem_1d'):
+        for k in vals:
+            if k[0] in 'uvw' and k[1:2] == '_':
+                vals[k] *= fv
+    return vals
+
+
+def gen_values(rng, sol, precs=('d', 'ld'), nassign=2, npts=3, evaluators=None, setter=None, variant='exc', paired=True, mix=False):
     """set every parameter to an admissible random value, then evaluate every provided evaluator at random
     points; with paired=True the same assignment and points are used in both precisions (inputs are exact
     doubles, so both instantiations receive identical mathematical inputs)."""
@@ -495,16 +524,19 @@ def gen_values(rng, sol, precs=('d', 'ld'), nassign=2, npts=3, evaluators=None, 
     for p in precs:
         S.append(['init', p, 'cxx', 'val', sol])
     last_pts = []
-    for _ in range(nassign):
+    for ai in range(nassign):
         pick = setter or (sa_chem_param if sol in ('rans_sa', 'fans_sa_transient_free_shear', 'fans_sa_steady_wall_bounded', 'euler_chem_1d')
                           else closed_param if sol in ('sod_1d', 'cp_normal') else admissible_param)
         vals = {k: pick(rng, sol, k) for k in e['pars']}
+        if mix:
+            vals = scale_mix(rng, sol, vals, ai)
         if sol == 'euler_chem_1d':
             vals['R_N2'] = vals['R_N'] / 2.0          # the two-species model has R_N2 = R_N/2 (DESIGN.md 4.5)
         data = None
         if sol == 'cp_normal':
             data = [exact_double(rng, -3.0, 3.0) for _ in range(rng.randint(1, 8))]
         cbk = [rng.choice(['const', 'arr', 'poly']), hexf(exact_double(rng, 0.5, 2.0)), hexf(exact_double(rng, 0.1, 0.9)), hexf(exact_double(rng, 0.1, 2.0))]
+        cbk2 = [rng.choice(['const', 'arr', 'poly']), hexf(exact_double(rng, 2.5, 4.0)), hexf(exact_double(rng, 0.1, 0.9)), hexf(exact_double(rng, 0.1, 2.0))]
         pts = []
         # first, the evaluations of the previous assignment once more at the SAME points (new parameters): a
         # cache keyed on the point, or a value computed once and kept, shows up against the oracle
@@ -530,6 +562,8 @@ def gen_values(rng, sol, precs=('d', 'ld'), nassign=2, npts=3, evaluators=None, 
                 S.append(['setv', p, 'cxx', 'vec_data', len(data)] + [hexf(v) for v in data])
             for fn, sig, pt, di in pts:
                 S.append(eval_line(p, 'cxx', fn, sig, pt, di, cbk))
+                if 'F' in sig:   # the same point with another caller-supplied function right away
+                    S.append(eval_line(p, 'cxx', fn, sig, pt, di, cbk2))
     ex = Execution(S, variant=variant, label='values:%s' % sol)
     ex.oracle = True
     return ex
